@@ -128,7 +128,14 @@ func (g *Gen) WrapOp(op string, kid *R, depth int) *R {
 			r.In[0] = ""
 		}
 		return g.maybeArg(r)
-	case "withmessage", "hint", "detail":
+	case "withmessage":
+		r := g.node(op, []string{g.word()}, nil, kid)
+		if !g.hostile && g.rng.Intn(10) == 0 {
+			r.In[0] = "" // WithMessage(err, ""): a prefix wrapper with an empty prefix is still a layer
+			return r
+		}
+		return g.maybeArg(r)
+	case "hint", "detail":
 		return g.maybeArg(g.node(op, []string{g.word()}, nil, kid))
 	case "withstack", "assertion", "pkgwithstack":
 		return g.node(op, nil, nil, kid)
